@@ -8,8 +8,8 @@
     statement covers the `Float` instance that runs beside the Rust code (RK23: `x = xend` or `x == xend`).
   * `SolOutM.runMode2_forward` (Proofs/SolOutMono.lean): at the output handler (solver-selected output), for every strictly
     increasing chain of accepted steps, every non-zero `first_step` and every interpolant, the recorded sample times are
-    strictly increasing, start at `x0` and do not pass the end of the last step (forward; the backward case is the mirror
-    image and is monitored).  The non-monotone samples repaired in 3991143 were a failure of exactly this invariant.
+    strictly increasing, start at `x0` and do not pass the end of the last step; `SolOutM.runMode2_backward`
+    (Proofs/SolOutMonoBack.lean) is the mirror image for `xend < x0` (strictly decreasing, never below the last step end).  The non-monotone samples repaired in 3991143 were a failure of exactly this invariant.
   * `hSolve_protocol` (C19) : the accepted points form a chain from `x0`.
   * `rowsum_*` (C02): stage times are `x + c_j h` with `0 ≤ c_j ≤ 1`, hence inside the step.
   RK23/RK4 landing, Radau/BDF, and the handler's sample bookkeeping are covered by co-simulation and the interval
@@ -19,6 +19,8 @@
   * Radau (`Proofs/RadauLemmas.lean`, control model tied by the X-radau trace co-simulation): `RadauCtl.pass_land`,
     `RadauCtl.run_success_at_xend`, `RadauCtl.start_land` — for every outcome of the factorisations, the Newton iteration, the
     error estimates and the callback, the landing flag is only raised on a step ending at xend and Success is reported only there.
+    `RadauCtl.run_rinv` / `RadauCtl.start_rinv` (`Proofs/RadauStep.lean`): at the head of every pass the step points toward
+    `xend` and `x + h` does not pass it (hypotheses: sign/monotonicity of `powf` at base ≥ 1, default-like settings).
   * BDF (`Proofs/BdfLemmas.lean`, control model tied by the X-bdf trace co-simulation): `BdfCtl.limits_spec`, `BdfCtl.pass_land`,
     `BdfCtl.run_success_at_xend`, `BdfCtl.start_inv` — the current point never passes xend, the landing step ends exactly
     there, Success is reported only there, for every oracle.
@@ -29,6 +31,8 @@ import IvpModel.Proofs.CtlField
 import IvpModel.Proofs.CtlRkField
 import IvpModel.Props.C02
 import IvpModel.Proofs.SolOutMono
+import IvpModel.Proofs.SolOutMonoBack
+import IvpModel.Proofs.RadauStep
 
 /-! ### `Success` lands on `xend` itself — in every arithmetic
 
